@@ -28,6 +28,21 @@ def check(report, tier, seed):
     for i in range(nprog):
         g = gen.ProgGen(rng, n_wires=rng.randint(3, 12), depth=rng.randint(1, 3), allow_div=False, halt_at=rng.choice([None, 3, 4]))
         progs.append((g.build(), gen.yo_image(rng, 10 * cycles + 30)))
+    # programs whose result records, cycle by cycle, what a wire READING an assigned control signal saw:
+    # a scheduling race between the signal and its reader shows up as run-to-run variation
+    for i in range(4 if tier == "quick" else 40):
+        a, b = rng.sample("ABCDEFGHJKLMN", 2)
+        st = ["register c%s { t : 8 = 0; hist : 32 = 0; }" % a, "c_t = %s_t + 1;" % a,
+              "register h%s { v : 8 = 0; }" % b, "h_v = %s_v + 1;" % b,
+              "wire a%d : 8;" % i, "a%d = %s_t;" % (i, a),
+              # directly from register outputs: the signal and its reader are both "ready at once"
+              "stall_%s = (%s_t)[0..1] == 1;" % (b, a), "bubble_%s = (a%d)[1..3] == 3;" % (b, i),
+              "wire seen%d : 1; " % i, "seen%d = stall_%s;" % (i, b), "wire seen2%d : 1;" % i, "seen2%d = bubble_%s || seen%d;" % (i, b, i),
+              "c_hist = (((%s_hist)[0..30] .. seen%d) .. seen2%d);" % (a, i, i),
+              "pc = 0;", "Stat = [ %s_t >= %d : STAT_HLT; 1 : STAT_AOK ];" % (a, cycles - 1)]
+        rng.shuffle(st)
+        progs.append(("\n".join(st) + "\n", gen.yo_image(rng, 40)))
+    nprog = len(progs)
     res = collections.Counter()
     # 1. the real binary, k processes per (program, mode): each process has its own hash keys
     with tempfile.TemporaryDirectory(dir=lib.CACHE) as d:
